@@ -132,6 +132,9 @@ def run_check(pid, mod, tier, seed):
             stale.append(f"{c.fq}: {e}")
             print(f"NOTE property={pid} helper contract {c.fq} no longer fits the code ({e}); callers are verified against its inlined body")
     units = [c for c in REG.contracts.values() if pid in props_of(c) and c.verify]
+    only = os.environ.get("PYVC_UNITS")      # development aid: restrict a run to the units whose name contains one of these (never used by the registered commands)
+    if only:
+        units = [c for c in units if any(w in c.fq for w in only.split(","))]
     obligations = []
     unit_info = []
     stubs_used, contracts_used, weak_loops, inlined = set(), set(), [], set()
